@@ -70,6 +70,24 @@ def exit_path_programs(n=5000):
     out.append(("exit_return_in_loop", "fn f(i: int) -> int { for j in 0..10 { if j == 3 { return i; } } 0 }\nfn main() { let n = 0; for i in 0..%d { n += f(1); } println(n); }\n" % n, "%d\n" % n))
     out.append(("exit_return_in_try", "fn f(i: int) -> int { try { return i; } catch e { return 0; } }\nfn main() { let n = 0; for i in 0..%d { n += f(1); } println(n); }\n" % n, "%d\n" % n))
     out.append(("exit_return_in_catch", "fn f(i: int) -> int { try { throw(\"x\"); } catch e { return i; } }\nfn main() { let n = 0; for i in 0..%d { n += f(1); } println(n); }\n" % n, "%d\n" % n))
+    # statements which take one way out of several, none of which may leave an operand behind: a match in which no arm
+    # matches (with and without a default), an if without else, a loop left at once, a null-typed block - far more often than the
+    # operand stack has room
+    stmts = {
+        "match_no_arm_matches": "match i { 1000001 => println(\"a\"), 1000002 => println(\"b\") }",
+        "match_default_taken": "match i { 1000001 => println(\"a\"), _ => { } }",
+        "match_value_no_arm": "let v = match i { 1000007 => 1, _ => 2 }; n += v - 2;",
+        "match_on_text_no_arm": "match \"k\" { \"a\" => println(\"a\"), \"b\" | \"c\" => println(\"b\") }",
+        "if_without_else_not_taken": "if i < 0 { println(\"neg\"); }",
+        "loop_left_at_once": "loop { break; }",
+        "for_over_nothing": "for q in 0..0 { println(q); }",
+        "try_nothing_thrown": "try { i; } catch e { println(\"c\"); }",
+        "block_statement": "{ i; }",
+        "call_of_null_function": "nothing(i);",
+    }
+    for name, st in stmts.items():
+        src = "fn nothing(x: int) { }\nfn step(i: int, n: int) -> int { %s n + 1 }\nfn main() { let n = 0; for i in 0..%d { %s n += 1; } for i in 0..%d { n = step(i, n); } println(n); }\n" % (st.replace("n += v - 2;", ""), n, st, n)
+        out.append(("stmt_" + name, src, "%d\n" % (2 * n)))
     return out
 
 
